@@ -11,5 +11,7 @@ for id in $ids; do
   crate=$(crate_of $p); props=$p
   sw=$(python3 -c "import json,sys;j=json.load(open('seeded/$id/meta.json')).get('sweep_with');print(j['crate'],j['props']) if j else None" 2>/dev/null)
   if [ -n "$sw" ] && [ "$sw" != "None" ]; then crate=${sw%% *}; props=${sw#* }; fi
-  MUT_SHOW=1 tools/mutant.sh s-$id $crate "$props" /verif/seeded/$id/patch.diff 2>&1 | grep -E "^MUTANT|^    C[0-9]" | cut -c1-220
+  # a change whose patch was written for an earlier commit of /repo (code repaired since) names it in meta.json
+  rev=$(python3 -c "import json;print(json.load(open('seeded/$id/meta.json')).get('repo_rev') or 'HEAD')" 2>/dev/null)
+  SEED_REPO_REV=${rev:-HEAD} MUT_SHOW=1 tools/mutant.sh s-$id $crate "$props" /verif/seeded/$id/patch.diff 2>&1 | grep -E "^MUTANT|^    C[0-9]" | cut -c1-220
 done
